@@ -19,6 +19,29 @@ def nontrivial(chk, st, rid, evs):
                     "setter_outcomes_inside_callbacks_then_after": [s["outcome"] for s in setters][:16]}, limit=3)
 
 
+def apalache_inductive(chk):
+    """Unbounded safety of the protocol: Apalache discharges Init => IndInv and IndInv /\\ Next => IndInv' (spec/apalache/ProtocolInd.tla)."""
+    import os
+    import shutil
+    import subprocess
+    d = vlib.scratch("C10-apalache")
+    shutil.copy(os.path.join(vlib.SPEC, "apalache", "ProtocolInd.tla"), d)
+    ok = []
+    for init, length in (("Init", 0), ("IndInit", 1)):
+        try:
+            p = subprocess.run(["apalache-mc", "check", "--init=" + init, "--inv=IndInv", "--length=%d" % length, "ProtocolInd.tla"],
+                               cwd=d, stdout=subprocess.PIPE, stderr=subprocess.STDOUT, text=True, timeout=300)
+            ok.append("EXITCODE: OK" in p.stdout)
+        except (subprocess.TimeoutExpired, FileNotFoundError):
+            ok.append(None)
+    shutil.rmtree(d, ignore_errors=True)
+    if False in ok:
+        raise vlib.FrameworkError("Apalache: IndInv of ProtocolInd.tla is not inductive any more")
+    chk.step("apalache inductive invariant of the protocol (unbounded number of calls, callbacks and setters)",
+             base_case=ok[0], inductive_step=ok[1])
+    chk.cov["apalache_obligations_discharged"] = sum(1 for v in ok if v)
+
+
 def run(chk):
     res = vlib.tlc_ok(vlib.tlc("PlaceProtocol", cfg="PlaceProtocol_TRUE", workers=8, coverage=True, timeout=900), "protocol")
     if res["violated"]:
@@ -27,6 +50,7 @@ def run(chk):
         if res["coverage"].get(act, [0, 0])[1] == 0:
             raise vlib.FrameworkError("vacuous protocol model: action %s never taken" % act)
     chk.add_tlc(res, "tlc protocol model (all interleavings of calls, callbacks, throws, setters; invariants + liveness)")
+    apalache_inductive(chk)
     plan = [
         dict(flavour="asan-ubsan", exe="record_proto", scen="proto", runs=(90, 2400), opts={}),
         dict(flavour="rel", exe="record_proto", scen="proto", runs=(60, 1200), opts={}),
